@@ -18,6 +18,7 @@ EXPLANATION = (
     'evaluation of the selecting condition plus a value-set analysis of the call sites. Necessary conditions only; fault timing is not decided. R7 the '
     'pending queue is mutated only by its owner functions and only at the documented end (C01.R2 re-evaluated: a wipe of the queue in the disconnect path '
     'loses commands that are still within their lifetime).'
+    ' Added later: R2 also demands that nothing suspends between the expiry test and the bytes reaching the stream (no await in the drain between test and _write, none in _write before the first write); R6 decides every accumulating construct the selecting condition names even when no caller passes it today.'
 )
 ASSUMPTIONS = [
     "the event-loop clock is monotonic",
